@@ -11,7 +11,7 @@ import os
 from .. import batch, cfggen, gen, model, runner, spec_lowlevel as S, statemodel, uplink
 from ..model import C
 from ..scen import Scn, call, up, s as S_
-from .C07 import cfg_dir, gen_feedback, gen_command
+from .C07 import cfg_dir, gen_feedback, gen_command, field_sweep
 from .C14 import faults, apply_fault
 
 def api_functions():
@@ -123,6 +123,25 @@ def gen_scenario(ctx, k):
     sc.add('quiesce', 'snap e', 'stop')
     return sc.text(), {'mode': 'debug' if debug else 'normal', 'calls': ncalls}
 
+def gen_fieldsweep(ctx, k):
+    """receiver-thread paths for out-of-range field values in feedback about configured equipment (every value 0..255 of one data byte
+    per template): the receiver must be back at the read callback holding nothing after each of them"""
+    rng = ctx.sub_rng('c11w', k)
+    cfg = cfggen.gen_config(rng, nboards=rng.randrange(1, 4), with_initial=False)
+    nodes = cfggen.assign_tree(rng, cfg, absent_prob=0.0)
+    m = statemodel.Model(cfg, nodes)
+    d = cfggen.write_config(cfg, cfg_dir(f'c11w_{k}'))
+    sc = Scn(seed=ctx.seed * 111 + k, watchdog=240000)
+    sc.add(*cfggen.bus_lines(cfg, nodes), 'bus brackets 0', f'start {d} 0', 'quiesce')
+    n = 0
+    for ad, t, data in field_sweep(rng, m, cfg, nodes, ntemplates=10):
+        sc.add(up(model.build_msg(ad, 0, t, data)))
+        n += 1
+        if n % 64 == 0:
+            sc.add('quiesce', 'get state x')
+    sc.add('quiesce', 'snap e', 'drain', 'stop')
+    return sc.text(), {'mode': 'fieldsweep', 'calls': 0, 'messages': n}
+
 def gen_fault_scenario(ctx, k):
     rng = ctx.sub_rng('c11f', k)
     cfg = cfggen.gen_config(rng, nboards=rng.randrange(2, 5))
@@ -200,7 +219,7 @@ def find_cycle(edges):
 def run(ctx):
     ctx.rule = ('cross product: every public bidib_send_* (accepted and spec-rejected arguments), every high-level setter/admin call x {valid, unknown aspect, unknown id, disconnected '
                 'board, out-of-range value, NULL}, every getter for known/unknown/NULL ids, flush, both read functions, bidib_send_sys_reset, all 256 uplink type codes (error and '
-                'non-error variants) on the receiver thread, in normal and debug mode; starts with every rejected-configuration class; concurrent stress with lock-level '
+                'non-error variants) on the receiver thread, field sweeps (every value 0..255 of one data byte of valid feedback about configured equipment), in normal and debug mode; starts with every rejected-configuration class; concurrent stress with lock-level '
                 'perturbation. non-trivial = distinct scenario in which nested lock acquisitions were observed while the library was running')
     ctx.assumptions = ['acyclicity of the OBSERVED nesting order over all runs (edges recorded while the library is running or on library threads)', 'glibc rwlocks are reader-preferring: '
                        'recursive read acquisition is recorded but is not an edge', 'paths that need allocation failure are not driven']
@@ -209,6 +228,8 @@ def run(ctx):
         jobs.append(('asan',) + gen_scenario(ctx, k))
     for k in range(ctx.n(40, 1500)):
         jobs.append(('asan',) + gen_fault_scenario(ctx, k))
+    for k in range(ctx.n(24, 1000)):
+        jobs.append(('mon' if k % 2 else 'asan',) + gen_fieldsweep(ctx, k))
     for k in range(ctx.n(30, 1500)):
         jobs.append(('mon' if k % 2 else 'asan',) + gen_stress(ctx, k))
     union = {}
@@ -228,6 +249,7 @@ def run(ctx):
             if oc != 'ok':
                 continue
             calls += sum(1 for e in r.events if e.get('e') == 'ret')
+            ctx.count('fieldsweep_messages', meta.get('messages', 0))
             ed = next((e for e in r.events if e.get('e') == 'edges'), None)
             if not ed:
                 ctx.inconclusive.append('no lock-order record')
